@@ -19,6 +19,7 @@ class VirtualLoop(asyncio.SelectorEventLoop):
         self.hold = hold_executor
         self.held = []
         self.idle_limit = None  # stop run_forever-style waiting when no timers and nothing ready
+        self.drop_cancelled = False  # option: a held job whose future was cancelled (its awaiter was cancelled) leaves `held`, as a cancelled executor job never runs
 
     def time(self):
         return self._vt
@@ -46,6 +47,8 @@ class VirtualLoop(asyncio.SelectorEventLoop):
 
         if self.hold:
             self.held.append(complete)
+            if self.drop_cancelled:
+                fut.add_done_callback(lambda f: self.held.remove(complete) if f.cancelled() and complete in self.held else None)
         else:
             complete()
         return fut
